@@ -146,7 +146,7 @@ def generate(rng, tier):
     if rng.random() < 0.3:
         table["footer"] = rng.choice(["", "custom footer"])
     if rng.random() < 0.25:
-        table["titles"] = {rng.choice(fields): rng.choice(["Two\nLines", "T", "A longer title", ["Listed", "title"], ["One"]])}
+        table["titles"] = {rng.choice(fields): rng.choice(["Two\nLines", "T", "A longer title", ["Listed", "title"], ["One"], ["Year", 2024], [None]])}
     if rng.random() < 0.2:
         table["limits"] = [rng.randint(0, 3), rng.randint(0, 3)]
         if rng.random() < 0.3:
